@@ -35,6 +35,11 @@ CLAIMS = {
   text="Structural necessary condition of run-to-run determinism: every `range` over a Go map in the interpreter package and the command is order-independent by construction (keyed map writes, deletes, integer counts, idempotent flags, append followed by a sort before any other use, constant-answer predicates, no call that reaches the symbol counter / a package variable / printing), is unreachable from the entry points, or is tabled for the named categories only; package-level variables written on script-reachable paths are enumerated and frozen. Does not decide time, randomness, pointer printing or scheduling.",
   note="Trusts go/types + go/ssa + the RTA graph. Nine loops are tabled with reasons and the categories they may show; two genuine findings are recorded in known_findings.json (error text of togo with several unknown fields; process-global struct registry).",
   ref="DESIGN.md §3 C20"),
+ "C07": dict(
+  technique="arithmetic-shape lints over go/ssa (sign of difference, unsigned difference, NaN-test dominance), table extraction from the operator switch and the numeric type switches, barrier analysis for integer division",
+  text="Structural necessary conditions of exact comparison: no three-way result from the sign of a 64-bit integer difference (unless both operands are widened from <=32 bits or lengths) or of an unsigned difference; an IsNaN test of every float operand dominates each sign-of-float-difference; CompareFunction maps each operator to the matching predicate on the three-way result and the unordered codes to false except !=; Compare routes each numeric type to its routine and the numeric type-pair matrix is symmetric; in the numeric tower an arm with one float operand converts the other with float64() and uses the float routine, integer arms stay integer; every integer / and % with a non-constant divisor is reachable only behind the builtin recover barrier (division by zero is an error). Does not decide numerical results, Pow, or wrap-around values.",
+  note="Trusts go/ssa and the AST shapes of the operator switch / type switches (fail closed when not recognised). One exemption: symbol-number difference in compareSymbol.",
+  ref="DESIGN.md §3 C07"),
 }
 NA_DEFAULT="rules not built yet (build in progress; see DESIGN.md §7)"
 NA = {}
